@@ -3,6 +3,7 @@ let () =
   let comp = if Array.length Sys.argv > 1 then Sys.argv.(1) else "" in
   let handler : string list -> string = match comp with
     | "codec" -> M_codec.handle
+    | "buffer" -> M_buffer.handle
     | _ -> prerr_endline ("unknown component " ^ comp); exit 2 in
   let out = Buffer.create 65536 in
   (try while true do
